@@ -7,6 +7,7 @@ import (
 	"testing"
 
 	"go.flow.arcalot.io/engine/internal/verif/vcase"
+	"go.flow.arcalot.io/engine/internal/verif/vplug"
 	"go.flow.arcalot.io/engine/internal/verif/vrun"
 	"pgregory.net/rapid"
 )
@@ -68,13 +69,48 @@ func checkMayRun(ms []*vcase.Model, ans *vrun.Answer) (msg string, forbidden int
 	return "", len(mustNot)
 }
 
+// addStopMotif appends four steps that make "the stop condition fires before the step starts"
+// deterministic: S waits for X and stops if Y; Z needs Y; X can finish only after Z started,
+// i.e. after the pass of the run loop that delivered the stop to S.
+func addStopMotif(c *vcase.Case) {
+	mk := func(id string) *vcase.Step {
+		return &vcase.Step{ID: id, Kind: "plugin", Op: "op", Input: vcase.MapVal([]string{"key"}, []*vcase.Val{vcase.LitVal(vcase.StrLit(id))})}
+	}
+	outs := func(step string) *vcase.Val {
+		return vcase.ExprVal(&vcase.Expr{K: "out", Step: step, Stage: "outputs", Output: "success"})
+	}
+	y, x, z, st := mk("my"), mk("mx"), mk("mz"), mk("ms")
+	z.WaitFor = outs("my")
+	st.WaitFor = outs("mx")
+	st.StopIf = outs("my")
+	c.Main.Steps = append(c.Main.Steps, y, x, z, st)
+	c.Script.Steps["my"] = vplug.Behaviour{Outcome: "success", DelayMs: 5}
+	c.Script.Steps["mx"] = vplug.Behaviour{Outcome: "success", Gate: "exec-start:mz", GateTimeoutMs: 1500}
+	c.Script.Steps["mz"] = vplug.Behaviour{Outcome: "success", DelayMs: 5}
+	c.Script.Steps["ms"] = vplug.Behaviour{Outcome: "success"}
+	for _, o := range c.Main.Outputs {
+		if o.Val.K == "map" {
+			for _, id := range []string{"my", "mx", "mz", "ms"} {
+				o.Val.Set("w_"+id, &vcase.Val{K: "waitopt", Expr: &vcase.Expr{K: "stage", Step: id, Stage: "outputs"}})
+			}
+		}
+	}
+	c.Labels = append(c.Labels, "motif:stop-fires-before-start")
+}
+
 func TestC04(t *testing.T) {
 	p := detProfile()
 	p.Name = "deterministic-mayrun"
 	p.OutputsWaitAll = true
 	p.Outcomes = []string{"success", "success", "error", "alt", "crash", "bad_output"}
 	runProperty(t, "C04",
-		func(rt *rapid.T) *vcase.Case { return vcase.GenCase(rt, p, "C04") },
+		func(rt *rapid.T) *vcase.Case {
+			c := vcase.GenCase(rt, p, "C04")
+			if rapid.IntRange(0, 2).Draw(rt, "stopmotif?") == 0 {
+				addStopMotif(c)
+			}
+			return c
+		},
 		func(st *Stats, c *vcase.Case) string {
 			ans := RunCase(c.Request("run"))
 			if ans.PrepareErr != "" {
@@ -90,6 +126,22 @@ func TestC04(t *testing.T) {
 				panic("harness failure: no shutdown-begin observation (binary built without schedule points?)")
 			}
 			_ = full
+			for _, l := range c.Labels {
+				if l == "motif:stop-fires-before-start" {
+					timedOut := false
+					for _, e := range full.Log {
+						if e.Kind == "gate-timeout" && e.Key == "mx" {
+							timedOut = true
+						}
+					}
+					for _, k := range execStarts(full) {
+						if k == "ms" && !timedOut {
+							st.Record(c, true, c.Labels)
+							return "a step whose stop condition fired before it could start was started anyway"
+						}
+					}
+				}
+			}
 			msg, forbidden := checkMayRun(refModels(c, ans), ans)
 			st.Record(c, forbidden >= 1, append(c.Labels, fmt.Sprintf("steps-that-must-not-run:%d", min(forbidden, 5))))
 			return msg
